@@ -808,6 +808,12 @@ func (f *fileStore) open() error {
 func (f *fileStore) flushPages() error {
 	f.lockExclusive()
 	defer f.unlockExclusive()
+	return f.flushPagesLocked()
+}
+
+// flushPagesLocked writes all dirty pages and the file header. the caller
+// must hold the exclusive lock.
+func (f *fileStore) flushPagesLocked() error {
 	verifPoint("flush.begin", 0)
 	defer verifPoint("flush.end", 0)
 	for _, v := range f.cache.cache {
